@@ -73,6 +73,49 @@ Theorem codepage_never_stripped : forall e input, e <> Utf8 ->
   pipeline (Some (enc_name e)) input = Ok (utf8_of e input).
 Proof. exact codepage_never_stripped. Qed.
 
+(* Every byte of a code-page input becomes exactly one rune - the code page's - in order: the
+   decoded stream, read as UTF-8 (Go's range / DecodeRune), has as many runes as the input has
+   bytes; it is well-formed UTF-8; no byte is dropped anywhere, in particular not the last one
+   (whatever its value: 0x1A, 0x00, an unassigned byte). *)
+Theorem decode_one_rune_per_byte : forall cp, cp = cp_iso8859_1 \/ cp = cp_windows1252 ->
+  forall s : bytes,
+    runes (decode cp s) = map cp s
+    /\ rune_count (decode cp s) = List.length s
+    /\ utf8_valid (decode cp s) = true
+    /\ (List.length s <= List.length (decode cp s))%nat.
+Proof.
+  intros cp Hc s. split; [exact (runes_decode cp Hc s)|]. split; [exact (rune_count_decode cp Hc s)|].
+  split; [exact (decode_utf8_valid cp Hc s) | exact (decode_length_ge cp Hc s)].
+Qed.
+
+Theorem decode_last_byte_kept : forall cp, cp = cp_iso8859_1 \/ cp = cp_windows1252 ->
+  forall (s : bytes) (b : byte),
+    decode cp (s ++ [b]) = decode cp s ++ dec_byte cp b /\ dec_byte cp b <> []
+    /\ forall rest, decode_rune (dec_byte cp b ++ rest) = (cp b, List.length (dec_byte cp b)).
+Proof.
+  intros cp Hc s b. destruct (decode_snoc cp Hc s b) as [H1 H2].
+  split; [exact H1|]. split; [exact H2 | exact (dec_byte_one_rune cp Hc b)].
+Qed.
+
+(* windows-1252: exactly the five bytes the code page leaves unassigned (81 8D 8F 90 9D) decode
+   to U+FFFD, as the three bytes EF BF BD; every other byte to the rune of CP1252.TXT. *)
+Theorem windows1252_unassigned_bytes : forall b : byte,
+  (cp_windows1252 b = RuneError <-> cp1252_unassigned b = true)
+  /\ (cp1252_unassigned b = true -> dec_byte cp_windows1252 b = [xef; xbf; xbd]).
+Proof. exact windows1252_unassigned. Qed.
+
+(* The utf-8 path (declared, absent, or the fallback) decodes nothing: for EVERY byte string -
+   ill-formed sequences, U+FFFD written out as EF BF BD, anything - the format reader receives
+   the input itself minus at most one leading mark. *)
+Theorem utf8_path_is_identity : forall s : bytes,
+  decode_with DecIdentity s = s
+  /\ pipeline (Some "utf-8"%string) s = Ok (strip_bom s) /\ pipeline None s = Ok (strip_bom s)
+  /\ exists p, s = p ++ strip_bom s /\ (p = [] \/ p = bom_bytes).
+Proof.
+  intro s. destruct (utf8_path_identity s) as (H1 & H2 & H3).
+  split; [exact H1|]. split; [exact H2|]. split; [exact H3 | exact (strip_bom_suffix s)].
+Qed.
+
 (* A leading mark never reaches the format reader (so it cannot end up in the first value or
    name) unless the utf-8 input literally started with two marks. *)
 Theorem leading_bom_only_if_doubled : forall e input r,
@@ -114,6 +157,13 @@ Example c18_split_instance :
   strip_bom_pieces [hx "ef"; []; hx "bb"; hx "bf41"; hx "42"] = hx "4142" /\
   strip_bom_pieces [hx "ef"; hx "bb"; hx "41"] = hx "efbb41" /\
   fill_until [] [hx "ef"; hx "bb"; hx "bf41"; hx "42"] = (hx "efbbbf41", [hx "42"]).
+Proof. vm_compute. repeat split; reflexivity. Qed.
+
+Example c18_utf8_identity_instance :
+  pipeline None (hx "41ff80efbfbdc328") = Ok (hx "41ff80efbfbdc328") /\
+  pipeline (Some "utf-8"%string) (hx "efbbbfefbfbd1a") = Ok (hx "efbfbd1a") /\
+  pipeline (Some "windows-1252"%string) (hx "41811a") = Ok (hx "41efbfbd1a") /\
+  runes (decode cp_windows1252 (hx "80811a")) = [8364%N; 65533%N; 26%N].
 Proof. vm_compute. repeat split; reflexivity. Qed.
 
 Example c18_extracted_facts :
